@@ -376,6 +376,15 @@ Plan generatePlan(uint64_t seed, uint64_t run, const std::string& property, bool
     s.preemptOneIn = oneIn[knob.below(6)];
     s.resumeOneIn = 1 + (int)knob.below(6);
     p.secondExecution = knob.chance(0.12);
+    // a program that builds a list of about ten thousand nodes executes some 50 000 statements: with a timer tick (and so a
+    // collection over the whole list) at nearly every one of them a sanitizer build needs minutes for it
+    for (auto& st : p.prog.main)
+        if (st.tpl == classprog::T_E_LONG_CHAIN) { if (s.meanIncNs > 50000) s.meanIncNs = 50000; s.jumpAtYield = -1; }
+#ifdef GCS_ATOMIC_SEAM
+    // under ThreadSanitizer with the timer pre-empted at its atomic operations such a program needs more than five minutes:
+    // the long chain is left to the plain and ASan flavours (what it is there for is native stack depth)
+    p.prog.main.erase(std::remove_if(p.prog.main.begin(), p.prog.main.end(), [](const classprog::Stmt& st) { return st.tpl == classprog::T_E_LONG_CHAIN; }), p.prog.main.end());
+#endif
     return p;
 }
 
